@@ -74,6 +74,14 @@
             fn $name() { $f($refl, $k, $bits); }
         };
     }
+    orient!(d1_r0_k0_b6, depth1, false, 0, 6);
+    orient!(d1_r0_k1_b6, depth1, false, 1, 6);
+    orient!(d1_r0_k2_b6, depth1, false, 2, 6);
+    orient!(d1_r0_k3_b6, depth1, false, 3, 6);
+    orient!(d1_r1_k0_b6, depth1, true, 0, 6);
+    orient!(d1_r1_k1_b6, depth1, true, 1, 6);
+    orient!(d1_r1_k2_b6, depth1, true, 2, 6);
+    orient!(d1_r1_k3_b6, depth1, true, 3, 6);
     orient!(d1_r0_k0_b8, depth1, false, 0, 8);
     orient!(d1_r0_k1_b8, depth1, false, 1, 8);
     orient!(d1_r0_k2_b8, depth1, false, 2, 8);
@@ -95,13 +103,13 @@
     orient!(d2_r1_k2_b5, depth2, true, 2, 5);
     orient!(d2_r0_k3_b5, depth2, false, 3, 5);
 
-    // the elementary transforms alone, full i32 domain where the matrix is exactly 0/1/-1 (no libm involved)
+    // the elementary transforms alone (matrix entries exactly 0/1/-1, no libm involved), 16-bit coordinates
     #[kani::proof]
     fn elementary_exact() {
-        let (x, y) = (any_coord(32), any_coord(32));
+        let (x, y) = (any_coord(16), any_coord(16));
         let p = Point::new(x, y);
         assert!(p.transform(&Transform::identity()) == p);
-        let (dx, dy): (i32, i32) = (kani::any(), kani::any());
+        let (dx, dy) = (any_coord(16) as i32, any_coord(16) as i32);
         let t = p.transform(&Transform::translate(dx as f64, dy as f64));
         assert!(t.x == x + dx as isize && t.y == y + dy as isize);
         let r = p.transform(&Transform::reflect_vert());
